@@ -11,3 +11,22 @@ for t in i386:i386-linux-gnu x86_64:x86_64-linux-gnu mips:mips-linux-gnu mipsel:
   clang $flags -shared -fPIC src/lib.c -o lib-$n.elf
 done
 ls -la *.elf
+
+# PE files for the PE loader sessions (lld-link); prog-r4000.exe is prog-i386.exe with the COFF
+# machine field patched to IMAGE_FILE_MACHINE_R4000 (0x166, little-endian MIPS): only the
+# machine -> architecture mapping is exercised with it.
+for t in i386:i686-pc-windows-msvc x86_64:x86_64-pc-windows-msvc; do
+  n=${t%%:*}; triple=${t#*:}
+  flags="--target=$triple -O1 -ffreestanding -fno-stack-protector -fno-asynchronous-unwind-tables -nostdlib -fuse-ld=lld-link"
+  clang $flags src/prog.c -o prog-$n.exe -Wl,/entry:_start -Wl,/subsystem:console -Wl,/nodefaultlib -Wl,/debug:none -Wl,/Brepro -Xlinker /export:compute -Xlinker /export:counter,DATA
+  clang $flags -shared src/pelib.c -o lib-$n.dll -Wl,/noentry -Wl,/nodefaultlib -Wl,/debug:none -Wl,/Brepro
+done
+python3 - <<'PY'
+b = bytearray(open("prog-i386.exe", "rb").read())
+pe = int.from_bytes(b[0x3c:0x40], "little")
+assert b[pe:pe + 4] == b"PE\0\0" and b[pe + 4:pe + 6] == b"\x4c\x01"
+b[pe + 4:pe + 6] = b"\x66\x01"
+open("prog-r4000.exe", "wb").write(b)
+PY
+rm -f *.lib
+ls -la *.exe *.dll
